@@ -15,6 +15,12 @@ job('string_set', 'str.addeq_string', 'h_str_addeq_string', ['C18', 'C04'], solv
 for _k, _kn in enumerate(['add_c32', 'add_string', 'addeq_c32', 'addeq_string', 'set_copy']):
     job('string_set', 'str.fault.' + _kn, 'h_str_fault', ['C19'], solver='cadical', timeout=900, defines=['FAULT_OP=%d' % _k], expect=[r'ST_string_fault\.postcondition\.[1-6]'])
 job('string_set', 'str.set_utf8.self', 'h_str_set_utf8_self', ['C04'], solver='cadical', timeout=900, expect=[r'ST_string_set_utf8_self\.postcondition\.[1-4]'])
+SET2 = ['ST::string::string|(ST::char_buffer &&, ST::utf_validation_t)', 'ST::string::string|(const ST::char_buffer &, ST::utf_validation_t)', 'ST::string::set|(const char16_t *, size_t, ST::utf_validation_t)',
+        'ST::string::set|(const char32_t *, size_t, ST::utf_validation_t)', 'ST::string::to_buffer|(ST::char_buffer &, bool, bool) const']
+unit('string_set2', functions=SET2, stubs=LEAF_STUBS + ['stp_validate_utf8', 'stp_cleanup_utf8_buffer', 'ST_utf16_to_utf8__pc16_sz_utf_validation_t', 'ST_utf32_to_utf8__pc32_sz_utf_validation_t', 'ST_utf8_to_latin_1__pc_sz_utf_validation_t_b'], spec=None, harness='harness/string_set2.c', include=INC)
+job('string_set2', 'str.ctor_buffer', 'h_str_ctor_buffer', ['C18'], solver='cadical', timeout=900, expect=[r'ST_string_ctor_buffer\.postcondition\.[1-6]'])
+job('string_set2', 'str.set_wide', 'h_str_set_wide', ['C18'], solver='cadical', timeout=900, expect=[r'ST_string_set_wide\.postcondition\.[1-5]'])
+job('string_set2', 'str.to_buffer', 'h_str_to_buffer', ['C18', 'C04'], solver='cadical', timeout=900, expect=[r'ST_string_to_buffer\.postcondition\.[1-7]'])
 PROPS['C18'] = dict(level='proof',
     explanation='validate-then-commit is proved, not assumed, for the operations between the public API and the proved leaves: string::set(const char_buffer&, v), set(char_buffer&&, v), _set_utf8 (behind the const char* constructor / set / operator=), operator+=(char32_t), operator+=(const string&), operator+(string, char32_t), operator+(char32_t, string): whenever one of them raises unicode_error the target keeps its size, data pointer and an arbitrary byte, the argument (also when passed as an rvalue) keeps its value, the heap-block count is unchanged (temporaries released on the unwinding path, which the translator inserts), and the exception is raised exactly when the validator / encoder reports failure; on success the committed bytes are exactly the validated ones.  string_stream insertion of wchar_t / char16_t / char32_t text (C16 unit): a failed conversion leaves the stream unchanged',
     trusted_base=['validate_utf8 contract stub (harness/utf_stubs.h; the function itself is proved in the UTF unit, C02)', 'cleanup_utf8_buffer contract stub (returns a fresh well-formed buffer)', 'char_traits copy/move contracts (prelude.h)'],
